@@ -31,9 +31,20 @@ func (x *Exec) Drive(nops int, note string) []GenOp {
 			continue
 		}
 		done = append(done, op)
+		// a panic the driver asked for: a structural attempt on a locked world, an invalid resource operation
+		expected := false
+		switch op.Op {
+		case "Set", "QOpen", "QNext", "QClose", "RegF", "UnregF", "RegO", "UnregO", "Emit", "Read":
+		case "ResAdd":
+			expected = x.res[op.Ev].has(x.w)
+		case "ResRemove", "ResSet":
+			expected = !x.res[op.Ev].has(x.w)
+		default:
+			expected = x.w.IsLocked()
+		}
 		lo := x.run(op, i)
 		x.emit(lo)
-		if lo.Panic {
+		if lo.Panic && !expected {
 			// the monitor will flag it; stop this history
 			break
 		}
